@@ -7,6 +7,8 @@ pub mod blockval;
 pub mod codec;
 pub mod ctx;
 pub mod glue;
+pub mod linkfmt;
+pub mod obsmodel;
 pub mod panicwatch;
 pub mod optval;
 pub mod refcodec;
@@ -31,6 +33,11 @@ pub fn dispatch(ctx: &mut ctx::Ctx) -> bool {
         "C07" => respcorr::run_c07(ctx),
         #[cfg(feature = "std")]
         "C13" => blockval::run_c13(ctx),
+        "C14" => obsmodel::run_observe(ctx, "C14"),
+        "C15" => obsmodel::run_observe(ctx, "C15"),
+        "C16" => linkfmt::run_c16(ctx),
+        "C17" => linkfmt::run_c17(ctx),
+        "C18" => linkfmt::run_c18(ctx),
         "C19" => accessors::run_c19(ctx),
         _ => return false,
     }
